@@ -4,23 +4,28 @@ use std::num::NonZeroU32;
 // destination: a 4-byte handle (same size class as std::fs::File, so AtomicCell<Option<R>> takes the
 // lock-free path the production TempFileBuffer<File> takes) onto a static byte log
 const LOGCAP: usize = 8;
-static mut DEST: [u8; LOGCAP] = [0; LOGCAP];
-static mut DEST_LEN: usize = 0;
-static mut DEST_WRITES: usize = 0;
+// NOTE: statics must not start with all-zero (or otherwise "constant-looking") bytes: kani-compiler 0.68
+// materialises alloc-backed constants such as `Ok(())` by reading from any allocation with identical
+// bytes, including a mutable static of the harness (observed: update() "returned Err" because its
+// `Ok(())` was read from a zero-initialised counter that the harness had incremented).
+const LEN_BASE: usize = 0x5EED_C12A_0000_1000;
+static mut DEST: [u8; LOGCAP] = [0xA1, 0xA2, 0xA3, 0xA4, 0xA5, 0xA6, 0xA7, 0xA8];
+static mut DEST_LEN_RAW: usize = LEN_BASE;
+fn dest_len() -> usize { unsafe { DEST_LEN_RAW - LEN_BASE } }
 
-struct Dest(NonZeroU32);
+struct Dest(u32);
 impl Write for Dest {
     fn write(&mut self, buf: &[u8]) -> io::Result<usize> {
         unsafe {
             let n = buf.len();
-            kani::assert(DEST_LEN + n <= LOGCAP, "[dest] log capacity");
+            let l = dest_len();
+            kani::assert(l + n <= LOGCAP, "[dest] log capacity");
             let mut i = 0;
             while i < n {
-                DEST[DEST_LEN + i] = buf[i];
+                DEST[l + i] = buf[i];
                 i += 1;
             }
-            DEST_LEN += n;
-            DEST_WRITES += 1;
+            DEST_LEN_RAW += n;
             Ok(n)
         }
     }
@@ -32,32 +37,101 @@ impl Write for Dest {
 fn consumer_switch_await(buf: &mut Option<TempFileBuffer<Dest>>, step: u8, at: u8, switched: &mut bool) {
     if step == at && !*switched {
         if let Some(b) = buf.as_mut() {
-            b.switch(Dest(NonZeroU32::new(1).unwrap()));
+            b.switch(Dest(1));
             *switched = true;
         }
     }
 }
 
-// @harness c12_switch_any_point_inmemory
+// @harness c12_switch_p0
 // @props C12
 // @tier quick
 // @kind core
-// @timeout 1500
-// @mem 24
-// @fs 16384
+// @timeout 900
+// @mem 16
 // @flags c-ffi
-// @functions TempFileBuffer::{new, switch, await_real_file}, TempFileBufferWriter::{write (update), flush, drop}; instantiation R = Dest(NonZeroU32)
-// @bounds producer: 2 writes (1 byte, then 2 bytes; symbolic contents), then drop; consumer: switch at a symbolic position p in {before write 1, between the writes, after write 2, after the drop}, then await_real_file; in-memory staging
-// @stubs tempfile::tempfile -> Err (never called: in-memory staging); libc syscall (futex wake from Condvar::notify_one) -> returns 0 in the C model
+// @functions TempFileBuffer::{new, switch, is_real_file_ready, await_real_file}, TempFileBufferWriter::{write (update), flush, drop}; instantiation R = Dest(NonZeroU32)
+// @bounds producer: 2 writes (1 byte, then 2 bytes; symbolic contents), then drop; consumer: `switch` lands at call-level position 0 of 4 (before the first write), then await_real_file; in-memory staging. The 4 positions are 4 harness instances: with a symbolic position the writer's BufferState enum merges into a symbolic variant and the formula exceeded 24 GB (measured)
+// @stubs tempfile::tempfile -> Err (never called: in-memory staging); libc syscall (futex wake from Condvar::notify_one) -> returns 0 in the C model; Vec::reserve -> asserts the 10 000-byte staging capacity suffices (no reallocation); std::io::copy -> asserted unreachable (temp-file arms)
 // @assumes call-level atomicity: every public call touches the shared state in one AtomicCell::swap or one mutex-protected section, so each concurrent execution is equivalent to an interleaving of whole calls (argued in DESIGN.md, not explored); blocking calls are scheduled only when enabled
-// @cut temp-file staging (quick tier); sub-call interleavings; the seqlock path of AtomicCell for handles larger than 8 bytes
-// @witness cover: switch lands between the two writes; switch lands after the producer finished
+// @cut temp-file staging; sub-call interleavings; the seqlock path of AtomicCell for handles larger than 8 bytes; more than 2 writes
+// @witness cover: non-zero bytes delivered
 #[kani::proof]
-#[kani::unwind(4)]
+#[kani::unwind(6)]
 #[kani::stub(tempfile::tempfile, crate::verif_support::fake_tempfile_err)]
-fn c12_switch_any_point_inmemory() {
-    let p: u8 = kani::any();
-    kani::assume(p <= 3);
+#[kani::stub(alloc::vec::Vec::reserve, crate::verif_support::reserve_within_capacity)]
+#[kani::stub(std::io::copy, crate::verif_support::io_copy_unreachable)]
+fn c12_switch_p0() {
+    switch_at(0);
+}
+
+// @harness c12_switch_p1
+// @props C12
+// @tier quick
+// @kind core
+// @timeout 900
+// @mem 16
+// @flags c-ffi
+// @functions TempFileBuffer::{new, switch, is_real_file_ready, await_real_file}, TempFileBufferWriter::{write (update), flush, drop}; instantiation R = Dest(NonZeroU32)
+// @bounds producer: 2 writes (1 byte, then 2 bytes; symbolic contents), then drop; consumer: `switch` lands at call-level position 1 of 4 (between the two writes), then await_real_file; in-memory staging. The 4 positions are 4 harness instances: with a symbolic position the writer's BufferState enum merges into a symbolic variant and the formula exceeded 24 GB (measured)
+// @stubs tempfile::tempfile -> Err (never called: in-memory staging); libc syscall (futex wake from Condvar::notify_one) -> returns 0 in the C model; Vec::reserve -> asserts the 10 000-byte staging capacity suffices (no reallocation); std::io::copy -> asserted unreachable (temp-file arms)
+// @assumes call-level atomicity: every public call touches the shared state in one AtomicCell::swap or one mutex-protected section, so each concurrent execution is equivalent to an interleaving of whole calls (argued in DESIGN.md, not explored); blocking calls are scheduled only when enabled
+// @cut temp-file staging; sub-call interleavings; the seqlock path of AtomicCell for handles larger than 8 bytes; more than 2 writes
+// @witness cover: non-zero bytes delivered
+#[kani::proof]
+#[kani::unwind(6)]
+#[kani::stub(tempfile::tempfile, crate::verif_support::fake_tempfile_err)]
+#[kani::stub(alloc::vec::Vec::reserve, crate::verif_support::reserve_within_capacity)]
+#[kani::stub(std::io::copy, crate::verif_support::io_copy_unreachable)]
+fn c12_switch_p1() {
+    switch_at(1);
+}
+
+// @harness c12_switch_p2
+// @props C12
+// @tier quick
+// @kind core
+// @timeout 900
+// @mem 16
+// @flags c-ffi
+// @functions TempFileBuffer::{new, switch, is_real_file_ready, await_real_file}, TempFileBufferWriter::{write (update), flush, drop}; instantiation R = Dest(NonZeroU32)
+// @bounds producer: 2 writes (1 byte, then 2 bytes; symbolic contents), then drop; consumer: `switch` lands at call-level position 2 of 4 (after the second write, before the producer finishes), then await_real_file; in-memory staging. The 4 positions are 4 harness instances: with a symbolic position the writer's BufferState enum merges into a symbolic variant and the formula exceeded 24 GB (measured)
+// @stubs tempfile::tempfile -> Err (never called: in-memory staging); libc syscall (futex wake from Condvar::notify_one) -> returns 0 in the C model; Vec::reserve -> asserts the 10 000-byte staging capacity suffices (no reallocation); std::io::copy -> asserted unreachable (temp-file arms)
+// @assumes call-level atomicity: every public call touches the shared state in one AtomicCell::swap or one mutex-protected section, so each concurrent execution is equivalent to an interleaving of whole calls (argued in DESIGN.md, not explored); blocking calls are scheduled only when enabled
+// @cut temp-file staging; sub-call interleavings; the seqlock path of AtomicCell for handles larger than 8 bytes; more than 2 writes
+// @witness cover: non-zero bytes delivered
+#[kani::proof]
+#[kani::unwind(6)]
+#[kani::stub(tempfile::tempfile, crate::verif_support::fake_tempfile_err)]
+#[kani::stub(alloc::vec::Vec::reserve, crate::verif_support::reserve_within_capacity)]
+#[kani::stub(std::io::copy, crate::verif_support::io_copy_unreachable)]
+fn c12_switch_p2() {
+    switch_at(2);
+}
+
+// @harness c12_switch_p3
+// @props C12
+// @tier quick
+// @kind core
+// @timeout 900
+// @mem 16
+// @flags c-ffi
+// @functions TempFileBuffer::{new, switch, is_real_file_ready, await_real_file}, TempFileBufferWriter::{write (update), flush, drop}; instantiation R = Dest(NonZeroU32)
+// @bounds producer: 2 writes (1 byte, then 2 bytes; symbolic contents), then drop; consumer: `switch` lands at call-level position 3 of 4 (after the producer has finished), then await_real_file; in-memory staging. The 4 positions are 4 harness instances: with a symbolic position the writer's BufferState enum merges into a symbolic variant and the formula exceeded 24 GB (measured)
+// @stubs tempfile::tempfile -> Err (never called: in-memory staging); libc syscall (futex wake from Condvar::notify_one) -> returns 0 in the C model; Vec::reserve -> asserts the 10 000-byte staging capacity suffices (no reallocation); std::io::copy -> asserted unreachable (temp-file arms)
+// @assumes call-level atomicity: every public call touches the shared state in one AtomicCell::swap or one mutex-protected section, so each concurrent execution is equivalent to an interleaving of whole calls (argued in DESIGN.md, not explored); blocking calls are scheduled only when enabled
+// @cut temp-file staging; sub-call interleavings; the seqlock path of AtomicCell for handles larger than 8 bytes; more than 2 writes
+// @witness cover: non-zero bytes delivered
+#[kani::proof]
+#[kani::unwind(6)]
+#[kani::stub(tempfile::tempfile, crate::verif_support::fake_tempfile_err)]
+#[kani::stub(alloc::vec::Vec::reserve, crate::verif_support::reserve_within_capacity)]
+#[kani::stub(std::io::copy, crate::verif_support::io_copy_unreachable)]
+fn c12_switch_p3() {
+    switch_at(3);
+}
+
+fn switch_at(p: u8) {
     let (b0, b1, b2, b3): (u8, u8, u8, u8) = (kani::any(), kani::any(), kani::any(), kani::any());
     // concrete sizes (1 and 2 bytes), symbolic contents: a symbolic write length turns every copy into a
     // variable-length memcpy (measured: 5.5M symex steps, out of memory)
@@ -75,9 +149,13 @@ fn c12_switch_any_point_inmemory() {
     let fl = writer.flush();
     drop(writer);
     consumer_switch_await(&mut buf, 3, p, &mut switched);
-    let ok = match (&r1, &r2, &fl) { (Ok(a), Ok(b), Ok(())) => *a == n1 && *b == n2, _ => false };
+    let ok1 = match &r1 { Ok(a) => *a == n1, _ => false };
+    let ok2 = match &r2 { Ok(b) => *b == n2, _ => false };
+    let ok3 = fl.is_ok();
     core::mem::forget(r1); core::mem::forget(r2); core::mem::forget(fl);
-    assert!(ok, "[write_ok] a staged write failed or was short");
+    assert!(ok1, "[write_ok1] the first staged write failed or was short");
+    assert!(ok2, "[write_ok2] the second staged write failed or was short");
+    assert!(ok3, "[flush_ok] flush failed");
     assert!(switched, "[sched] consumer scheduled");
     // the producer is done: waiting must be enabled (no deadlock at call granularity) and return the file
     let b = buf.take().unwrap();
@@ -85,7 +163,7 @@ fn c12_switch_any_point_inmemory() {
     let dest = b.await_real_file();
     core::mem::forget(dest);
     unsafe {
-        assert!(DEST_LEN == n1 + n2, "[len] destination does not hold exactly the bytes written");
+        assert!(dest_len() == n1 + n2, "[len] destination does not hold exactly the bytes written");
         let mut want = [0u8; 4];
         let mut k = 0;
         want[k] = b0; k += 1;
@@ -100,30 +178,74 @@ fn c12_switch_any_point_inmemory() {
             i += 1;
         }
     }
-    let c1 = p == 1;
-    kani::cover!(c1, "switch between the writes");
-    let c2 = p == 3;
-    kani::cover!(c2, "switch after the producer finished");
+    let c1 = (b0 != 0) & (b2 != 0);
+    kani::cover!(c1, "non-zero bytes delivered");
 }
 
-// @harness c12_unswitched_len_and_copy
+// @harness c12_unswitched_w0
 // @props C12
 // @tier quick
 // @kind core
-// @timeout 1500
-// @mem 24
-// @fs 16384
+// @timeout 900
+// @mem 16
 // @flags c-ffi
 // @functions TempFileBuffer::{new, len, expect_closed_write, is_real_file_ready}, TempFileBufferWriter::{write, drop}
-// @bounds producer: 0..=2 writes (1 byte, then 2 bytes; symbolic contents), then drop; consumer never switches: readiness polled at a symbolic point, then len, then expect_closed_write into a destination; in-memory staging
-// @assumes as c12_switch_any_point_inmemory
-// @witness cover: zero writes; polled before the producer finished
+// @bounds producer: 0 write(s) (1 byte, then 2 bytes; symbolic contents), then drop; the consumer never switches: readiness polled at a symbolic point, then len, then expect_closed_write into a destination; in-memory staging
+// @stubs as c12_switch_p0
+// @assumes as c12_switch_p0
+// @witness cover: polled before the producer finished
 #[kani::proof]
-#[kani::unwind(4)]
+#[kani::unwind(6)]
 #[kani::stub(tempfile::tempfile, crate::verif_support::fake_tempfile_err)]
-fn c12_unswitched_len_and_copy() {
-    let nw: u8 = kani::any();
-    kani::assume(nw <= 2);
+#[kani::stub(alloc::vec::Vec::reserve, crate::verif_support::reserve_within_capacity)]
+#[kani::stub(std::io::copy, crate::verif_support::io_copy_unreachable)]
+fn c12_unswitched_w0() {
+    unswitched(0);
+}
+
+// @harness c12_unswitched_w1
+// @props C12
+// @tier quick
+// @kind core
+// @timeout 900
+// @mem 16
+// @flags c-ffi
+// @functions TempFileBuffer::{new, len, expect_closed_write, is_real_file_ready}, TempFileBufferWriter::{write, drop}
+// @bounds producer: 1 write(s) (1 byte, then 2 bytes; symbolic contents), then drop; the consumer never switches: readiness polled at a symbolic point, then len, then expect_closed_write into a destination; in-memory staging
+// @stubs as c12_switch_p0
+// @assumes as c12_switch_p0
+// @witness cover: polled before the producer finished
+#[kani::proof]
+#[kani::unwind(6)]
+#[kani::stub(tempfile::tempfile, crate::verif_support::fake_tempfile_err)]
+#[kani::stub(alloc::vec::Vec::reserve, crate::verif_support::reserve_within_capacity)]
+#[kani::stub(std::io::copy, crate::verif_support::io_copy_unreachable)]
+fn c12_unswitched_w1() {
+    unswitched(1);
+}
+
+// @harness c12_unswitched_w2
+// @props C12
+// @tier quick
+// @kind core
+// @timeout 900
+// @mem 16
+// @flags c-ffi
+// @functions TempFileBuffer::{new, len, expect_closed_write, is_real_file_ready}, TempFileBufferWriter::{write, drop}
+// @bounds producer: 2 write(s) (1 byte, then 2 bytes; symbolic contents), then drop; the consumer never switches: readiness polled at a symbolic point, then len, then expect_closed_write into a destination; in-memory staging
+// @stubs as c12_switch_p0
+// @assumes as c12_switch_p0
+// @witness cover: polled before the producer finished
+#[kani::proof]
+#[kani::unwind(6)]
+#[kani::stub(tempfile::tempfile, crate::verif_support::fake_tempfile_err)]
+#[kani::stub(alloc::vec::Vec::reserve, crate::verif_support::reserve_within_capacity)]
+#[kani::stub(std::io::copy, crate::verif_support::io_copy_unreachable)]
+fn c12_unswitched_w2() {
+    unswitched(2);
+}
+
+fn unswitched(nw: u8) {
     let poll_at: u8 = kani::any();
     kani::assume(poll_at <= 2);
     let (b0, b1, b2, b3): (u8, u8, u8, u8) = (kani::any(), kani::any(), kani::any(), kani::any());
@@ -156,18 +278,16 @@ fn c12_unswitched_len_and_copy() {
     let lok = match &l { Ok(x) => *x == total as u64, _ => false };
     core::mem::forget(l);
     assert!(lok, "[staged_len] reported staged length differs from the number of bytes written");
-    let mut dest = Dest(NonZeroU32::new(1).unwrap());
+    let mut dest = Dest(1);
     let r = buf.expect_closed_write(&mut dest);
     let rok = r.is_ok();
     core::mem::forget(r);
     assert!(rok, "[copy_ok] copying the closed buffer failed");
     unsafe {
-        assert!(DEST_LEN == total, "[len] destination does not hold exactly the bytes written");
+        assert!(dest_len() == total, "[len] destination does not hold exactly the bytes written");
         if nw >= 1 { assert!(DEST[0] == b0, "[order] first byte"); }
         if nw >= 2 { assert!(DEST[n1] == b2, "[order] first byte of the second write"); }
     }
-    let c1 = nw == 0;
-    kani::cover!(c1, "zero writes");
-    let c2 = (poll_at == 1) & (nw == 2);
-    kani::cover!(c2, "polled between writes");
+    let c2 = poll_at == 1;
+    kani::cover!(c2, "polled before the producer finished");
 }
